@@ -445,6 +445,61 @@ func (e *c12Env) report(c *Case, xs []*c12Exec) {
 
 var c12HookFiles = []string{"h1.sh", "sub/h2.sh", "003-deep/nested dir/h3.sh"}
 
+// ---------------------------------------------------------------- temp files that cannot be created
+
+// Length of each temp file name beyond the hook's safe name, in creation order (binding-context,
+// metrics, admission-response, conversion-response, object-patch): "hook-" + safe + "-<kind>-" + uuid
+// [+ ".json"]. With NAME_MAX = 255 a safe name of L bytes gets: L <= 188 all five files; L = 189 the
+// conversion-response file (4th) fails after three were created; L = 190..192 the admission-response
+// file (3rd) fails after two; L >= 193 the first one fails. The removal list of Run is NOT in creation
+// order (conversion before admission), so every one of these points is a different situation.
+var c12NameExtra = []int{63, 55, 66, 67, 50}
+
+func c12CreatedFor(safeLen int) int {
+	created := 0
+	for _, extra := range c12NameExtra {
+		if safeLen+extra > 255 {
+			break
+		}
+		created++
+	}
+	return created
+}
+
+// a hook file whose safe name has safeLen bytes
+func c12LongHook(safeLen int) string { return strings.Repeat("a", safeLen-3) + ".sh" }
+
+var c12NameMaxOnce sync.Once
+var c12NameMaxIs255 bool
+
+// does the scratch file system refuse exactly the names longer than 255 bytes?
+func c12NameMax255(r *Run) bool {
+	c12NameMaxOnce.Do(func() {
+		d := filepath.Join(r.Scratch, "c12-namemax-probe")
+		if os.MkdirAll(d, 0o755) != nil {
+			return
+		}
+		defer os.RemoveAll(d)
+		ok255 := os.WriteFile(filepath.Join(d, strings.Repeat("n", 255)), nil, 0o644) == nil
+		ok256 := os.WriteFile(filepath.Join(d, strings.Repeat("n", 256)), nil, 0o644) == nil
+		c12NameMaxIs255 = ok255 && !ok256
+	})
+	return c12NameMaxIs255
+}
+
+// one execution, alone, of a hook some of whose temp files cannot be created: the process must not be
+// started, the task fails, and — "whatever the outcome" — no temp file may stay
+func (e *c12Env) runPrepFail(c *Case, x *c12Exec, created int, rng *Rng) {
+	_ = e.writeScripts(x, rng)
+	e.runAll([]*c12Exec{x})
+	_, statErr := os.Stat(filepath.Join(e.recDir, fmt.Sprintf("exec-%d", x.eid)))
+	left := e.leftover()
+	c.Op(fmt.Sprintf("prepfail %d created=%d allow=%s", x.eid, created, c13B01(x.allow)),
+		fmt.Sprintf("status=%s started=%s leftover=%d", x.status, c13B01(statErr == nil), left))
+	c.Oracle(fmt.Sprintf("tmpdir leftover=%d", left))
+	c.Note(fmt.Sprintf("prepare-fails-after:%d-files", created))
+}
+
 func c12PickClass(rng *Rng, classes []string) string {
 	// empty and valid are the common cases; every other class gets a fair share
 	switch r := rng.Intn(100); {
@@ -495,7 +550,15 @@ func c12Random(r *Run) func(c *Case, rng *Rng) {
 	return func(c *Case, rng *Rng) {
 		rng = c13Reseed(rng) // see c13.go: neighbouring cases must not share their random numbers
 		nh := rng.Range(1, 3)
-		env, err := c12Setup(r, c, c12HookFiles[:nh])
+		hookFiles := c12HookFiles[:nh]
+		// 35%: one more hook whose name makes the creation of a temp file fail at one of the reachable
+		// points (after 3, 2 or 0 files); it gets one execution after the concurrent part
+		longLen := 0
+		if rng.Chance(35) && c12NameMax255(r) {
+			longLen = PickOne(rng, []int{189, 189, 190, 191, 192, 193})
+			hookFiles = append(append([]string{}, hookFiles...), c12LongHook(longLen))
+		}
+		env, err := c12Setup(r, c, hookFiles)
 		if err != nil {
 			c.Op("setup", "harness-error "+err.Error())
 			return
@@ -518,6 +581,12 @@ func c12Random(r *Run) func(c *Case, rng *Rng) {
 		}
 		env.runAll(xs)
 		env.report(c, xs)
+		if longLen > 0 {
+			if safe := env.op.HookManager.GetHook(hookFiles[nh]).SafeName(); len(safe) == longLen {
+				env.runPrepFail(c, &c12Exec{eid: n + 1, hook: nh, q: 1, allow: rng.Chance(20), metrics: "empty", adm: "empty", conv: "empty", patch: "empty", nctx: rng.Range(1, 3)},
+					c12CreatedFor(longLen), rng)
+			}
+		}
 		c12Notes(c, xs)
 		c.Note(fmt.Sprintf("executions:%d", n))
 		c.Note(fmt.Sprintf("concurrent-queues:%d", len(qs)))
@@ -531,7 +600,7 @@ func runC12(r *Run) {
 		"concurrently; each execution has a scripted exit code (25% non-zero, some killed by a signal; 30% write to stderr) and scripted contents of the metrics / admission / conversion / patch " +
 		"files (empty, valid, truncated, wrong type, deleted; metrics also valid-but-rejected batch; patch also failing application and invalid document); " +
 		"every execution goes through the real taskHandler -> handleRunHook -> Hook.Run with a real process, real MetricStorage and kube-client/fake; " +
-		"the hook records pwd, the six path variables, initial file sizes and the context file. Non-trivial = at least 2 executions or a non-empty output/non-zero exit."
+		"the hook records pwd, the six path variables, initial file sizes and the context file. 35% of the cases add a hook whose name (189-193 characters) makes the creation of the 4th / 3rd / 1st temp file fail (NAME_MAX) and run it once more at the end: not started, failed, nothing left behind. Non-trivial = at least 2 executions or a non-empty output/non-zero exit."
 	app.DebugKeepTmpFilesVar = "no"
 
 	// corpus 0: every failure stage in one case, sequentially
@@ -602,6 +671,44 @@ func runC12(r *Run) {
 		c.Oracle(fmt.Sprintf("tmpdir leftover=%d", left))
 		c.Note("corpus")
 		c.Desc = "temp file creation fails half-way (190-character hook name): the process is not started, the execution fails, no file may stay"
+		c.Nontrivial = true
+	})
+
+	// corpus 3: every point at which the creation of the temp files can stop, one hook per safe-name
+	// length 186..194 (all five created / the 4th fails after three / the 3rd fails after two / the
+	// first fails). The removal list of Run is not in creation order, so "what was created so far" is a
+	// different subset of it at every point; nothing may stay at any of them.
+	r.One(3, func(c *Case, rng *Rng) {
+		if !c12NameMax255(r) {
+			c.Inconcl = "the scratch file system does not have NAME_MAX = 255"
+			return
+		}
+		var files []string
+		for l := 186; l <= 194; l++ {
+			files = append(files, c12LongHook(l))
+		}
+		env, err := c12Setup(r, c, files)
+		if err != nil {
+			c.Inconcl = "cannot set up hooks with 186..194-character names: " + err.Error()
+			return
+		}
+		defer env.close()
+		var full []*c12Exec
+		for i, f := range files {
+			safe := env.op.HookManager.GetHook(f).SafeName()
+			x := &c12Exec{eid: i + 1, hook: i, q: 1, metrics: "empty", adm: "empty", conv: "empty", patch: "empty", nctx: 1}
+			if created := c12CreatedFor(len(safe)); created < 5 {
+				env.runPrepFail(c, x, created, rng)
+				continue
+			}
+			x.metrics, x.adm, x.conv, x.patch = "valid", "valid", "valid", "valid"
+			_ = env.writeScripts(x, rng)
+			env.runAll([]*c12Exec{x})
+			full = append(full, x)
+		}
+		env.report(c, full)
+		c.Note("corpus")
+		c.Desc = "hook names of 186..194 characters: the creation of the temp files stops after 5 (runs), 3, 2 or 0 files; the process is not started, the execution fails, no file may stay"
 		c.Nontrivial = true
 	})
 
